@@ -51,10 +51,12 @@ def case(draw):
     f_off = 0.0 if flip else fs * draw(st.sampled_from([0.0, 0.5]))
     frame = {"ts": ts, "fs": fs, "t_off": t_off, "f_off": f_off, "flip": flip}
     kw = dict(simple_lines=True, allow_degenerate=False, frame=frame)
-    g1 = draw(geometry_spec(kinds=[k1], **kw))
+    # boxes and intervals of zero duration / zero bandwidth are valid geometries without area: they are not buffered, and what they share
+    # with anything has no area either
+    g1 = draw(geometry_spec(kinds=[k1], **dict(kw, allow_degenerate=k1 in ("BoundingBox", "TimeInterval"))))
     placement = draw(st.sampled_from(["identical", "shifted", "independent", "independent"])) if k1 == k2 else "independent"
     if placement == "independent":
-        g2 = draw(geometry_spec(kinds=[k2], **kw))
+        g2 = draw(geometry_spec(kinds=[k2], **dict(kw, allow_degenerate=k2 in ("BoundingBox", "TimeInterval"))))
     elif placement == "identical":
         g2 = {"type": g1["type"], "coordinates": g1["coordinates"], "meta": g1["meta"]}
     else:
